@@ -13,7 +13,7 @@ LEVEL = 'fault_enumeration'
 RUNS = {'quick': 320, 'thorough': 1600}
 CHUNK = 1
 RECHECK_MOD = 53
-PROBES = ['cut_in_header', 'cut_in_threadmap', 'cut_in_stackshot_scan', 'cut_after_complete_old_capture_in_stackshot', 'cut_in_chunkhdr', 'cut_in_record',
+PROBES = ['cut_in_header', 'cut_in_threadmap', 'cut_in_stackshot_scan', 'cut_inside_last_bytes_of_record', 'cut_after_complete_old_capture_in_stackshot', 'cut_in_chunkhdr', 'cut_in_record',
           'cut_at_record_boundary', 'cut_in_block', 'cut_in_pad', 'eio_fired', 'count_limit', 'v2', 'v3',
           'cut_in_event_tag_scan', 'cli_run', 'cli_run_with_filters', 'many_chunks', 'dump_with_orphan_ends', 'unbuffered_reader']
 RULE = ('one run = one simulated dump (SimKernel threads -> merged stream -> v2/v3 writer) with every cut offset '
@@ -261,6 +261,16 @@ def execute(scn):
             hist.append([k, 'hang'])
             continue
         row = [k]
+        # nothing is fabricated from a partial record: no view reports more events than whole records lie before the cut
+        whole_recs = sum(1 for name_, s_, e_ in layout if name_ == 'record' and e_ <= k)
+        if region == 'record' and off >= 52:
+            bump('probe:cut_inside_last_bytes_of_record')      # (every reported field of the record is present, the record is not)
+        for view in ('events', 'raw_events'):
+            if view in got and len(got[view][0]) > whole_recs:
+                viols.append({'tag': 'event-from-partial-record', 'sig': 'v%d:%s:%s' % (ver, view, 'tail' if region == 'record' and off >= 52 else region),
+                              'detail': 'cut at %d of %d (%s+%d): %d events reported, only %d whole records lie before the cut' % (
+                                  k, n, region, off, len(got[view][0]), whole_recs)})
+                break
         for view in got:
             if view.startswith('_'):
                 continue
